@@ -29,27 +29,47 @@ def main():
             shared.append(m)
     # --only restricts what is EMITTED; collection always covers every table generator so ids are stable
     if shared:
+        failed = []
         try:
             definition = common.load_definition()
-            intern = common.Interner()
-            mods = [importlib.import_module(m) for m in shared]
-            for m in mods:
-                m.collect(intern, definition)
-            intern.freeze()
-            common.save_json("names.json", intern.ids)
-            for m, nm in zip(mods, shared):
-                if only is None or nm in only:
-                    m.emit(intern, definition)
         except Exception as e:
             traceback.print_exc()
-            print(f"GENERATOR-ERROR tables: {type(e).__name__}: {e}")
+            print(f"GENERATOR-ERROR tables: cannot load definitions: {type(e).__name__}: {e}")
+            return 1
+        intern = common.Interner()
+        mods = []
+        for nm in shared:
+            try:
+                m = importlib.import_module(nm)
+                m.collect(intern, definition)
+                mods.append((nm, m))
+            except Exception as e:
+                traceback.print_exc()
+                print(f"GENERATOR-ERROR {nm} (collect): {type(e).__name__}: {e}")
+                failed.append(nm)
+        intern.freeze()
+        common.save_json("names.json", intern.ids)
+        for nm, m in mods:
+            if only is None or nm in only:
+                try:
+                    m.emit(intern, definition)
+                except Exception as e:
+                    traceback.print_exc()
+                    print(f"GENERATOR-ERROR {nm} (emit): {type(e).__name__}: {e}")
+                    failed.append(nm)
+        if any(only is None or nm in only for nm in failed):
             rc = 1
     # stand-alone generators (each has main())
     for m in ("stages", "survivors"):
         if (HERE / f"{m}.py").exists() and (only is None or m in only):
             try:
                 mod = importlib.import_module(m)
-                r = mod.main() if hasattr(mod, "main") else 0
+                import inspect
+
+                if hasattr(mod, "main"):
+                    r = mod.main([]) if len(inspect.signature(mod.main).parameters) else mod.main()
+                else:
+                    r = 0
                 if r:
                     rc = 1
             except SystemExit as e:
